@@ -42,6 +42,9 @@ THEOREMS = {
         "Shroud.Decl.denote_toks",
         "Shroud.Decl.denote_toks_param",
         "Shroud.Decl.parse_agrees_with_cxx_partial",
+        "Shroud.Decl.denote_argToks_cxx_object_partial",
+        "Shroud.Decl.denote_argToks_c_object_partial",
+        "Shroud.Decl.specMeans_builtin",
     ]
 }
 
